@@ -686,7 +686,8 @@ theorem Rnd_int (neg : Bool) (n : Nat) (E : Int) (hn : n ≠ 0) :
     Rnd ((if neg then -1 else 1) * ((n : ℚ) * pow2 E)) (roundPack .f64 neg n E) := by
   have hOk : Ok n 1 := ⟨by omega, by omega, Or.inl (Nat.mod_one _)⟩
   have := Rnd_ratio neg n 1 E hOk
-  have e : rmag n 1 E = roundMag .f64 n E := by unfold rmag; simp
+  have e : rmag n 1 E = roundMag .f64 n E := by
+    unfold rmag; rw [if_pos (Nat.mod_one _), Nat.div_one]
   rw [e] at this
   rw [roundPack_pos _ _ _ _ hn]
   simpa using this
